@@ -18,6 +18,9 @@ READ_FORMS = ["full", "asarray", "array_nocopy", "dunder_array", "basic_slice", 
 WRITE_KINDS = ["set_item", "set_all", "imul", "iadd", "fill", "reverse", "sort"]
 
 
+TEMP_FEAT = "vmon_c17_temp"
+
+
 def _gen_data(rng, n):
     data = {
         "deform": rng.uniform(0.001, 0.3, n),
@@ -278,6 +281,30 @@ def run_feat(ctx, idx, S):
                     if handle is not None:
                         M.apply_write(handle, wop)
                         ctx.count("feat_write_reaches_cache_in_defect_model")
+            elif r < 0.64:
+                # ---------------- the root's data change without any filter change: a
+                # temporary feature is set (again); after a refresh from the youngest member
+                # the members' feature objects must deliver the new values
+                import dclab.definitions as dfn_
+                if not dfn_.scalar_feature_exists(TEMP_FEAT):
+                    dclab.register_temporary_feature(TEMP_FEAT)
+                arr = rng.normal(size=n)
+                dclab.set_temporary_feature(h5, TEMP_FEAT, arr)
+                gchild.rejuvenate()
+                for an_, d_, ids_ in (("child", child, pidx1), ("gchild", gchild, pidx2)):
+                    S.spec = {"step": step, "actor": an_, "feature": TEMP_FEAT,
+                              "form": "whole array after the root's temporary feature was set"}
+                    try:
+                        got = np.array(d_[TEMP_FEAT][:], copy=True)
+                        ok = M.same_value(got, arr[ids_])
+                        detail = None
+                    except Exception as exc:
+                        got, ok, detail = None, False, repr(exc)
+                    ctx.check("feat_read_equals_model", ok,
+                              lambda: dict(S.spec, got=got, expected=arr[ids_], exc=detail),
+                              message=f"{an_}[{TEMP_FEAT!r}] does not deliver the root's current "
+                                      f"temporary feature after a refresh")
+                ctx.count("temporary_feature_replaced_below_hierarchy")
             elif r < 0.78 and with_mask:
                 # ------------------------------------------------ contour read (+ write)
                 an = str(rng.choice(["h5", "child", "gchild"]))
